@@ -130,6 +130,10 @@ def main_interrupted(path, opts, k, with_report=True):
     if not with_report:
         o['report'] = False
     out, exc = None, ''
+    import os, tempfile, shutil
+    cwd = os.getcwd()
+    tmpd = tempfile.mkdtemp(prefix='vmain-')      # profile=<n> makes the driver write profile.out into the current directory
+    os.chdir(tmpd)
     sys.settrace(tr)
     try:
         with contextlib.redirect_stdout(io.StringIO()):
@@ -138,6 +142,8 @@ def main_interrupted(path, opts, k, with_report=True):
         exc = type(e).__name__ + ': ' + str(e)[:60]
     finally:
         sys.settrace(None)
+        os.chdir(cwd)
+        shutil.rmtree(tmpd, ignore_errors=True)
     return out, exc, n[0]
 
 
